@@ -44,30 +44,60 @@
 (***************************************************************************)
 EXTENDS Integers, FiniteSets, TLC
 
-CONSTANTS Writer, MaxObj, MaxFam, MaxRow, ClosedSegmentRejects, ClosedFamilyRejects
+CONSTANTS
+  \* @type: Set(Str);
+  Writer,
+  \* @type: Int;
+  MaxObj,
+  \* @type: Int;
+  MaxFam,
+  \* @type: Int;
+  MaxRow,
+  \* @type: Bool;
+  ClosedSegmentRejects,
+  \* @type: Bool;
+  ClosedFamilyRejects
 
 Obj == 1..MaxObj
 Fam == 1..MaxFam
 Row == 1..MaxRow
 
 VARIABLES
+  \* @type: Int;
   segMap,   \* the segment object in the interval segment's map (0 = none)
+  \* @type: Int;
   nobj,     \* segment objects created so far
+  \* @type: Int -> Str;
   st,       \* [Obj -> {"none","open","closed"}]   closed = Segment.Close ran: its kv store is closed
+  \* @type: Int -> Int;
   cached,   \* [Obj -> Fam \cup {0}]  the family object in the segment's family map
+  \* @type: Int;
   nfam,     \* family objects created so far
+  \* @type: Int -> Int;
   fseg,     \* [Fam -> Obj \cup {0}]  the segment object (its kv store) the family object was created on
+  \* @type: Int -> Str;
   fst,      \* [Fam -> {"none","live","closed"}]
+  \* @type: Int -> Set(Int);
   fmem,     \* [Fam -> SUBSET Row]  rows in the memory databases of the family object
+  \* @type: Int -> Bool;
   stuck,    \* [Fam -> BOOLEAN]  a flush of the object failed: its later Flush calls are ignored
+  \* @type: Set(Int);
   flushed,  \* SUBSET Row: rows in a committed file of the kv family (durable)
+  \* @type: Set(Int);
   late,     \* SUBSET Row: rows accepted by a closed family object
+  \* @type: Int;
   next,     \* next row
+  \* @type: Str -> Str;
   wpc,      \* [Writer -> {"idle","gotseg","gotfam"}]
+  \* @type: Str -> Int;
   wseg,     \* [Writer -> Obj \cup {0}]: the segment handle
+  \* @type: Str -> Int;
   wfam,     \* [Writer -> Fam \cup {0}]: the family handle
+  \* @type: Str;
   imutex,   \* "free" | "evict": the interval segment mutex held across steps (only EvictSegment does that)
+  \* @type: Str;
   ev,       \* "idle" | "check" | "closing": the TTL task inside EvictSegment
+  \* @type: Bool;
   failed    \* history: a flush failed because the store of its family was closed
 
 vars == <<segMap, nobj, st, cached, nfam, fseg, fst, fmem, stuck, flushed, late, next, wpc, wseg, wfam, imutex, ev, failed>>
